@@ -3,6 +3,7 @@
 // Built twice: address+undefined (value oracle, steering, stuck detection) and
 // thread sanitizer (data races in the C++ memory model; no holds).
 #define PROPERTY_ID "C11"
+#define VH_HAS_ENUM
 #include <atomic>
 #include <cassert>
 #include <chrono>
@@ -38,13 +39,64 @@ namespace
     };
 }
 
+// Systematic schedule exploration (address build): for two reference histories, EVERY single
+// order constraint "thread t, at its k-th passage (k = 1..3) of schedule point p, holds until thread
+// u has passed schedule point q" over all threads of the history, all points a thread of that kind
+// passes and u != t.  Holds are bounded (25 ms), so a constraint that cannot be satisfied only
+// delays.  Encoded as {0xEE, history, t, p, k, u, q}.
+static const int ENUM_CALLER_PTS[] = { fsv::runtasks_before_store, fsv::runtasks_after_store, fsv::pause_spin, fsv::resume_before_notify, fsv::resume_after_notify, fsv::wait_spin, fsv::stop_before_join, fsv::wait_done, fsv::pause_done };
+static const int ENUM_WORKER_PTS[] = { fsv::pausejob_before_lock, fsv::pausejob_after_lock, fsv::pausejob_after_inc, fsv::pausejob_after_wait, fsv::worker_loop, fsv::worker_before_job, fsv::worker_after_job, fsv::worker_after_clear, fsv::worker_exit };
+static const size_t ENUM_THREADS[2] = { 3, 4 };  // caller + 2 workers ; caller + 3 workers
+static size_t enum_count()
+{
+    size_t n = 0;
+    for (size_t h = 0; h < 2; ++h)
+        n += ENUM_THREADS[h] * 9 * 3 * (ENUM_THREADS[h] - 1) * 9;
+    return n;
+}
+static std::vector<uint8_t> enum_case(size_t k)
+{
+    size_t h = 0;
+    size_t per0 = ENUM_THREADS[0] * 9 * 3 * (ENUM_THREADS[0] - 1) * 9;
+    if (k >= per0)
+    {
+        h = 1;
+        k -= per0;
+    }
+    size_t nt = ENUM_THREADS[h];
+    size_t q = k % 9;
+    k /= 9;
+    size_t u = k % (nt - 1);
+    k /= (nt - 1);
+    size_t occ = k % 3;
+    k /= 3;
+    size_t p = k % 9;
+    k /= 9;
+    size_t t = k % nt;
+    if (u >= t)
+        ++u;  // u != t
+    return { 0xEE, static_cast<uint8_t>(h), static_cast<uint8_t>(t), static_cast<uint8_t>(p), static_cast<uint8_t>(occ + 1), static_cast<uint8_t>(u), static_cast<uint8_t>(q) };
+}
+
 static void check_case(vg::Src& s, vh::Ctx& c)
 {
     vs::install();
+    bool enumerated = !C11_TSAN && s.n > 0 && s.d[0] == 0xEE;
     g_tr.steering = false;
     g_tr.reset();
 
     // ---- decode the history
+    size_t enum_h = 0, enum_t = 0, enum_p = 0, enum_occ = 1, enum_u = 0, enum_q = 0;
+    if (enumerated)
+    {
+        s.u8();
+        enum_h = s.u8() % 2;
+        enum_t = s.u8() % ENUM_THREADS[enum_h];
+        enum_p = s.u8() % 9;
+        enum_occ = 1 + s.u8() % 3;
+        enum_u = s.u8() % ENUM_THREADS[enum_h];
+        enum_q = s.u8() % 9;
+    }
     size_t size0 = s.weighted({ 70, 16, 60, 50, 30, 16, 14 }) + 1;  // 1..7, mostly 1 -> 2 via the map below
     if (size0 == 1)
         size0 = 2;  // simplest interesting pool
@@ -121,6 +173,36 @@ static void check_case(vg::Src& s, vh::Ctx& c)
         r.until_tid = 0;
         r.until_point = fsv::resume_after_notify;
         g_tr.rules.push_back(r);
+    }
+    if (enumerated)
+    {
+        // reference histories: pool(2) [two sessions] and pool(3) resized to 2 and back to 3
+        sessions.clear();
+        g_tr.rules.clear();
+        classic = false;
+        if (enum_h == 0)
+        {
+            size0 = 2;
+            sessions.push_back({ 0, { { 0, 5, 0, 0 } }, false, false });
+            sessions.push_back({ 0, { { 0, 3, 0, 0 } }, false, true });
+        }
+        else
+        {
+            size0 = 3;
+            sessions.push_back({ 2, { { 0, 4, 0, 0 } }, false, false });
+            sessions.push_back({ 3, { { 2, 9, 2, 0 } }, true, false });
+        }
+        Rule r;
+        r.tid = static_cast<int>(enum_t);
+        r.point = enum_t == 0 ? ENUM_CALLER_PTS[enum_p] : ENUM_WORKER_PTS[enum_p];
+        r.occurrence = static_cast<unsigned>(enum_occ);
+        r.action = 2;
+        r.amount = 0;
+        r.until_tid = static_cast<int>(enum_u);
+        r.until_point = enum_u == 0 ? ENUM_CALLER_PTS[enum_q] : ENUM_WORKER_PTS[enum_q];
+        r.bound_ms = 25;
+        g_tr.rules.push_back(r);
+        c.label("enumerated-order-constraint");
     }
     for (auto& r : g_tr.rules)
         plan += describe_rule(r);
